@@ -439,13 +439,13 @@ func (w *c39World) flip(b []byte) []byte {
 		return []byte{1}
 	}
 	out := append([]byte(nil), b...)
-	i := r.Draw("fault", len(out))
-	out[i] ^= 1 << uint(r.Draw("fault", 8))
+	i := r.Draw("ops", len(out))
+	out[i] ^= 1 << uint(r.Draw("ops", 8))
 	return out
 }
 
 func (w *c39World) mutStr(s string) string {
-	switch w.r.Draw("fault", 3) {
+	switch w.r.Draw("ops", 3) {
 	case 0:
 		return s + "x"
 	case 1:
@@ -469,7 +469,7 @@ func (w *c39World) shiftBoundary(p *pairingtypes.RelayPrivateData) (*pairingtype
 	r := w.r
 	v := c39ClonePD(p)
 	kinds := []string{"extensions>metadata", "ext_split", "addon>extensions", "addon|api_interface", "api_interface|connection_type", "connection_type|api_url", "api_url|data", "data|request_block|seen_block|salt", "metadata_added_from_ext_prefix"}
-	k := kinds[r.Draw("fault", len(kinds))]
+	k := kinds[r.Draw("ops", len(kinds))]
 	ok := false
 	switch k {
 	case "extensions>metadata":
@@ -585,14 +585,14 @@ func (w *c39World) exchange(task string, c *c39Consumer) {
 	guid := r.Draw64("ops") | 1
 	kind := "none"
 	if w.cuPressure {
-		switch r.Draw("fault", 6) {
+		switch r.Draw("ops", 6) {
 		case 3, 4:
 			kind = "cs_cu_lower"
 		case 5:
-			kind = c39Kinds[r.Draw("fault", len(c39Kinds))]
+			kind = c39Kinds[r.Draw("ops", len(c39Kinds))]
 		}
-	} else if r.Draw("fault", 5) >= 2 {
-		kind = c39Kinds[r.Draw("fault", len(c39Kinds))]
+	} else if r.Draw("ops", 5) >= 2 {
+		kind = c39Kinds[r.Draw("ops", len(c39Kinds))]
 	}
 	if ok, _ := w.chainTruth().paired(c.addr, cs.epoch); !ok && kind == "none" {
 		kind = "cs_unpaired_at_epoch" // an honest request of a consumer the chain does not pair for that epoch
@@ -617,11 +617,11 @@ func (w *c39World) exchange(task string, c *c39Consumer) {
 	case "cs_provider":
 		params.provider = w.other.Addr.String()
 	case "cs_spec":
-		params.spec = []string{"LAV1", "ETH2", ""}[r.Draw("fault", 3)]
+		params.spec = []string{"LAV1", "ETH2", ""}[r.Draw("ops", 3)]
 	case "cs_lavachain":
-		params.lava = []string{"lava-testnet-2", "", "lav"}[r.Draw("fault", 3)]
+		params.lava = []string{"lava-testnet-2", "", "lav"}[r.Draw("ops", 3)]
 	case "cs_epoch_old":
-		e := int64(blocked) - int64(w.epochSize)*int64(r.Draw("fault", 3))
+		e := int64(blocked) - int64(w.epochSize)*int64(r.Draw("ops", 3))
 		if e < int64(w.firstEpoch) {
 			e = int64(w.firstEpoch)
 		}
@@ -631,25 +631,25 @@ func (w *c39World) exchange(task string, c *c39Consumer) {
 			params.epoch = e
 		}
 	case "cs_epoch_future":
-		params.epoch = int64(w.curEpoch + w.epochSize*uint64(1+r.Draw("fault", 2)))
+		params.epoch = int64(w.curEpoch + w.epochSize*uint64(1+r.Draw("ops", 2)))
 	case "cs_epoch_zero":
-		params.epoch = []int64{0, -1, -int64(w.epochSize)}[r.Draw("fault", 3)]
+		params.epoch = []int64{0, -1, -int64(w.epochSize)}[r.Draw("ops", 3)]
 	case "cs_epoch_unaligned":
-		params.epoch = int64(w.curEpoch) - int64(1+r.Draw("fault", int(w.epochSize)-1))
+		params.epoch = int64(w.curEpoch) - int64(1+r.Draw("ops", int(w.epochSize)-1))
 	case "cs_relay_num_stale":
 		if cs.relayNum == 0 {
 			params.relayNum = 0
 		} else {
-			params.relayNum = cs.relayNum - uint64(r.Draw("fault", int(min(cs.relayNum, 3))))
+			params.relayNum = cs.relayNum - uint64(r.Draw("ops", int(min(cs.relayNum, 3))))
 		}
 	case "cs_cu_lower":
-		dec := uint64(1 + r.Draw("fault", int(bd.cu)+4))
+		dec := uint64(1 + r.Draw("ops", int(bd.cu)+4))
 		if dec > params.cuSum {
 			dec = params.cuSum
 		}
 		params.cuSum -= dec
 	case "cs_cu_higher":
-		params.cuSum += uint64(1 + r.Draw("fault", 40))
+		params.cuSum += uint64(1 + r.Draw("ops", 40))
 	case "cs_stranger":
 		params.key = w.stranger
 	case "cs_stranger_pairing_error":
@@ -662,9 +662,9 @@ func (w *c39World) exchange(task string, c *c39Consumer) {
 			bd.pd.Addon = ""
 		}
 	case "cs_ext_unknown":
-		bd.pd.Extensions = append(bd.pd.Extensions, []string{"foo", "archive2", "debug"}[r.Draw("fault", 3)])
+		bd.pd.Extensions = append(bd.pd.Extensions, []string{"foo", "archive2", "debug"}[r.Draw("ops", 3)])
 	case "cs_seen_negative":
-		bd.pd.SeenBlock = -int64(1 + r.Draw("fault", 50))
+		bd.pd.SeenBlock = -int64(1 + r.Draw("ops", 50))
 	}
 	signed := w.sign(bd.pd, params)
 	if kind == "cs_hash_other" {
@@ -705,31 +705,31 @@ func (w *c39World) exchange(task string, c *c39Consumer) {
 	sub := ""
 	switch kind {
 	case "if_provider":
-		s.Provider = []string{w.other.Addr.String(), w.mutStr(s.Provider)}[r.Draw("fault", 2)]
+		s.Provider = []string{w.other.Addr.String(), w.mutStr(s.Provider)}[r.Draw("ops", 2)]
 	case "if_spec":
-		s.SpecId = []string{"LAV1", w.mutStr(s.SpecId)}[r.Draw("fault", 2)]
+		s.SpecId = []string{"LAV1", w.mutStr(s.SpecId)}[r.Draw("ops", 2)]
 	case "if_lavachain":
 		s.LavaChainId = w.mutStr(s.LavaChainId)
 	case "if_epoch":
-		s.Epoch = []int64{s.Epoch - int64(w.epochSize), s.Epoch + int64(w.epochSize), int64(blocked), 0, -1, s.Epoch + 1}[r.Draw("fault", 6)]
+		s.Epoch = []int64{s.Epoch - int64(w.epochSize), s.Epoch + int64(w.epochSize), int64(blocked), 0, -1, s.Epoch + 1}[r.Draw("ops", 6)]
 	case "if_session_id":
-		s.SessionId ^= 1 << uint(r.Draw("fault", 40))
+		s.SessionId ^= 1 << uint(r.Draw("ops", 40))
 	case "if_relay_num":
-		if r.Chance("fault", 1, 2) && s.RelayNum > 0 {
+		if r.Chance("ops", 1, 2) && s.RelayNum > 0 {
 			s.RelayNum--
 		} else {
 			s.RelayNum++
 		}
 	case "if_cu_sum":
-		if r.Chance("fault", 1, 2) && s.CuSum > 0 {
-			s.CuSum -= uint64(1 + r.Draw("fault", int(min(s.CuSum, 30))))
+		if r.Chance("ops", 1, 2) && s.CuSum > 0 {
+			s.CuSum -= uint64(1 + r.Draw("ops", int(min(s.CuSum, 30))))
 		} else {
-			s.CuSum += uint64(1 + r.Draw("fault", 1000))
+			s.CuSum += uint64(1 + r.Draw("ops", 1000))
 		}
 	case "if_content_hash":
 		s.ContentHash = w.flip(s.ContentHash)
 	case "if_sig":
-		switch r.Draw("fault", 4) {
+		switch r.Draw("ops", 4) {
 		case 0:
 			s.Sig = w.flip(s.Sig)
 		case 1:
@@ -754,13 +754,13 @@ func (w *c39World) exchange(task string, c *c39Consumer) {
 	case "pd_data_flip":
 		pd.Data = w.flip(pd.Data)
 	case "pd_data_swap":
-		pd.Data = []byte(c39Methods[(method+1+r.Draw("fault", len(c39Methods)-1))%len(c39Methods)].data)
+		pd.Data = []byte(c39Methods[(method+1+r.Draw("ops", len(c39Methods)-1))%len(c39Methods)].data)
 	case "pd_api_url":
 		pd.ApiUrl = w.mutStr(pd.ApiUrl)
 	case "pd_conn_type":
-		pd.ConnectionType = []string{"GET", w.mutStr(pd.ConnectionType)}[r.Draw("fault", 2)]
+		pd.ConnectionType = []string{"GET", w.mutStr(pd.ConnectionType)}[r.Draw("ops", 2)]
 	case "pd_api_iface":
-		pd.ApiInterface = []string{"rest", w.mutStr(pd.ApiInterface)}[r.Draw("fault", 2)]
+		pd.ApiInterface = []string{"rest", w.mutStr(pd.ApiInterface)}[r.Draw("ops", 2)]
 	case "pd_addon":
 		if pd.Addon == "" {
 			pd.Addon = "debug"
@@ -768,7 +768,7 @@ func (w *c39World) exchange(task string, c *c39Consumer) {
 			pd.Addon = ""
 		}
 	case "pd_ext":
-		if len(pd.Extensions) > 0 && r.Chance("fault", 1, 2) {
+		if len(pd.Extensions) > 0 && r.Chance("ops", 1, 2) {
 			pd.Extensions = pd.Extensions[1:]
 		} else {
 			pd.Extensions = append(pd.Extensions, "archive")
@@ -776,9 +776,9 @@ func (w *c39World) exchange(task string, c *c39Consumer) {
 	case "pd_metadata":
 		pd.Metadata = append(pd.Metadata, pairingtypes.Metadata{Name: "x-h", Value: "v"})
 	case "pd_req_block":
-		pd.RequestBlock += int64(1 + r.Draw("fault", 3))
+		pd.RequestBlock += int64(1 + r.Draw("ops", 3))
 	case "pd_seen_block":
-		pd.SeenBlock += int64(1 + r.Draw("fault", 300))
+		pd.SeenBlock += int64(1 + r.Draw("ops", 300))
 	case "pd_salt":
 		pd.Salt = w.flip(pd.Salt)
 	case "pd_boundary":
@@ -795,7 +795,7 @@ func (w *c39World) exchange(task string, c *c39Consumer) {
 		if len(c.served) == 0 {
 			kind, d.kind = "none", "none"
 		} else {
-			old := c.served[r.Draw("fault", len(c.served))]
+			old := c.served[r.Draw("ops", len(c.served))]
 			recv = c39Clone(old.req)
 			signed = c39Clone(old.req)
 			d.ownSid = old.ownSid
@@ -804,7 +804,7 @@ func (w *c39World) exchange(task string, c *c39Consumer) {
 		if len(c.served) == 0 {
 			kind, d.kind = "none", "none"
 		} else {
-			old := c.served[r.Draw("fault", len(c.served))]
+			old := c.served[r.Draw("ops", len(c.served))]
 			o := c39Clone(old.req)
 			recv.RelaySession = o.RelaySession
 			signed = &pairingtypes.RelayRequest{RelaySession: c39Clone(old.req).RelaySession, RelayData: c39Clone(old.req).RelayData}
@@ -817,7 +817,7 @@ func (w *c39World) exchange(task string, c *c39Consumer) {
 	case "st_node_error":
 		d.nodeErr = true
 	case "st_node_slow":
-		d.nodeDelay = time.Duration(1+r.Draw("fault", 400)) * time.Millisecond
+		d.nodeDelay = time.Duration(1+r.Draw("ops", 400)) * time.Millisecond
 	}
 	if kind != "none" && !strings.HasPrefix(kind, "st_") {
 		r.Fault(kind)
